@@ -8,6 +8,7 @@ from fractions import Fraction
 from decimal import Decimal
 
 DEFS = {}  # atom name -> (op, [args...])   args are Poly or python values
+ATOM_TY = {}  # atom name -> Rust type of the variable it stands for (when known)
 
 
 class Poly:
@@ -241,11 +242,11 @@ def opaque(op, args, tag=None):
 _fresh = [0]
 
 
-def fresh(prefix, inputs=None):
+def fresh(prefix, inputs=None, op="phi"):
     _fresh[0] += 1
     name = "%s#%d" % (prefix, _fresh[0])
     if inputs is not None:
-        DEFS[name] = ("phi", [x for x in inputs if isinstance(x, Poly)])
+        DEFS[name] = (op, [x for x in inputs if isinstance(x, Poly)])
     return Poly.atom(name)
 
 
